@@ -582,9 +582,13 @@ class Executor(Engine, ExprMixin, StmtMixin, CallMixin):
             raise EngineError('while loop %d needs an invariant (line %d)' % (ordinal, s.lineno))
         fr = self.frame()
         name = 'loop%d' % ordinal
+        self.ghost_init(st, spec)
+        self.fold_axioms(st, spec, None, False)
         self.check_inv(st, spec, name, 'init', None)
         self.havoc_loop(st, spec, s.body)
         self.assume_inv(st, spec)
+        if spec.get('folds') and spec.get('index') in st.vars:
+            self.fold_axioms(st, spec, Val.i(st.vars[spec['index']].t), True)
         c = self.truthy(st, self.eval(st, s.test))
         after = st.copy()
         after.guard = And(st.guard, Not(c))
@@ -639,6 +643,7 @@ class Executor(Engine, ExprMixin, StmtMixin, CallMixin):
             fnode = func_ast(f)
             mod = inspect.getmodule(f)
         self.cur_contract = c
+        self.abstract_products = bool(getattr(c.module, 'ABSTRACT_PRODUCTS', False))
         st = State()
         if self.logger is None:
             self.setup_globals()
